@@ -20,6 +20,7 @@ import (
 	"time"
 
 	gcmn "github.com/dappledger/AnnChain/gemmill/modules/go-common"
+	"github.com/dappledger/AnnChain/gemmill/modules/verifhook"
 )
 
 /* AutoFile usage
@@ -109,6 +110,9 @@ func (af *AutoFile) Write(b []byte) (n int, err error) {
 		}
 	}
 
+	if err = verifhook.BeforeWrite("autofile.Write"); err != nil {
+		return
+	}
 	n, err = af.file.Write(b)
 	return
 }
